@@ -287,8 +287,8 @@ Violation ComputeViolation(
       return {viol, x[resvar]};
     case Context::CTX_NEG:
       return {-viol, x[resvar]};
-    default:
-      return {INFINITY, 0.0};
+    default:            // No context: the expression is not used
+      return {0.0, 0.0};  // (e.g., presolved out), nothing to violate
     }
   }
   return                              // recomputed var minus solver's
@@ -407,8 +407,8 @@ public:
       if (has_arg >= ccon_valid)
         return {0.0, 0.0};
       return {-viol.viol_, viol.valX_};
-    default:
-      return {INFINITY, 0.0};
+    default:            // No context: not used, nothing to violate
+      return {0.0, 0.0};
     }
   }
 };
